@@ -6,6 +6,7 @@
 
 mod burnutil;
 mod common;
+mod digest;
 mod e2;
 mod zoo;
 mod props;
@@ -20,6 +21,9 @@ fn main() {
         std::process::exit(2);
     }
     let id = args[1].to_uppercase();
+    if id == "HOOKS" {
+        std::process::exit(hooks_transparency(&args[2]));
+    }
     let verif_dir = std::env::var("VERIF_DIR").unwrap_or_else(|_| "/verif".to_string());
     let seed: u64 = std::env::var("VERIF_SEED").ok().and_then(|s| s.parse().ok()).unwrap_or(0);
     if std::env::var("MC_LOUD_PANICS").is_err() {
@@ -85,4 +89,51 @@ fn main() {
     }
     let code = ctx.finish(&verif_dir);
     std::process::exit(code);
+}
+
+/// `mc HOOKS <path of the plain binary>`: the digest grid of `digest.rs` computed in this (hooks-on) build must equal,
+/// member by member, the digests printed by the same code built against the library WITHOUT feature `verif`.
+/// Exit 0 equal, 2 otherwise (a machinery failure: the hooks would not be pass-throughs; never a property verdict).
+fn hooks_transparency(plain_bin: &str) -> i32 {
+    let verif_dir = std::env::var("VERIF_DIR").unwrap_or_else(|_| "/verif".to_string());
+    let tmp = format!("{verif_dir}/.scratch");
+    let _ = std::fs::create_dir_all(&tmp);
+    let out = match std::process::Command::new(plain_bin).arg(&tmp).stderr(std::process::Stdio::null()).output() {
+        Ok(o) if o.status.success() => String::from_utf8_lossy(&o.stdout).to_string(),
+        Ok(o) => {
+            eprintln!("MACHINERY-ERROR [HOOKS]: plain binary failed: {:?}", o.status);
+            return 2;
+        }
+        Err(e) => {
+            eprintln!("MACHINERY-ERROR [HOOKS]: cannot run {plain_bin}: {e}");
+            return 2;
+        }
+    };
+    let plain: Vec<(String, String)> = out.lines().filter_map(|l| l.split_once('\t').map(|(a, b)| (a.to_string(), b.to_string()))).collect();
+    let here: Vec<(String, String)> = digest::digests(&tmp).into_iter().map(|(k, v)| (k, format!("{v:016x}"))).collect();
+    let mut bad = vec![];
+    if plain.len() != here.len() {
+        bad.push(format!("grid sizes differ: plain {} vs hooks-on {}", plain.len(), here.len()));
+    }
+    for ((ka, va), (kb, vb)) in plain.iter().zip(here.iter()) {
+        if ka != kb || va != vb {
+            bad.push(format!("{ka}: plain {va} vs hooks-on {kb} {vb}"));
+        }
+    }
+    let distinct: std::collections::BTreeSet<&String> = here.iter().map(|(_, v)| v).collect();
+    let report = serde_json::json!({
+        "what": "behaviour digests of seeded MH/Gibbs/HMC/NUTS runs (run, run again, run_progress + RunStats), diagnostics and exports: library built with feature verif (inside mc) vs built without it (plain); equal = hooks are pass-throughs outside explorer sessions",
+        "grid_members": here.len(), "distinct_digests": distinct.len(), "mismatches": bad,
+        "digests": here.iter().map(|(k, v)| serde_json::json!([k, v])).collect::<Vec<_>>(),
+    });
+    let _ = std::fs::write(format!("{verif_dir}/hooks_transparency.json"), serde_json::to_string_pretty(&report).unwrap() + "\n");
+    if bad.is_empty() {
+        println!("[HOOKS] {} grid members ({} distinct digests): hooks-on build == plain build", here.len(), distinct.len());
+        0
+    } else {
+        for b in &bad {
+            eprintln!("MACHINERY-ERROR [HOOKS]: {b}");
+        }
+        2
+    }
 }
